@@ -84,6 +84,13 @@ def L0b():
         yield ("rec", s)
 
 
+def L0c():
+    """functions without a return type: value-less returns; with the shape followed by more statements / as the last statement"""
+    for s in cfgen.shapes(2):
+        yield ("void", s)
+        yield ("voidlast", s)
+
+
 def cond_values(s):
     out = []
     if s[0] in ("if", "ifelse"):
@@ -289,7 +296,8 @@ class C01(Check):
             "compound, siblings simple leaves) up to the layer's depth, with default parameters (L0), every single parameter deviation "
             "(L1), spines of length <= 5 (L2), ordered pairs of depth-<=1 items in a function / module / loop body (L3), and in the "
             "thorough tier depth 4, double deviations and long sequences; each skeleton is emitted inside fn(p:int)->int called with "
-            "p = 0, 1, 2 (and at module level / through one level of recursion), framed by probes that print a site id and all live "
+            "p = 0, 1, 2 (and at module level / through one level of recursion / inside a function without a return type, whose returns carry no value, both followed by "
+            "further statements and as the last statement of the body), framed by probes that print a site id and all live "
             "counters.  Identifier spellings: 12 roles of an identifier (variable, function incl. call statements, parameter, loop counter, field / method, "
             "optional, const, list, first token after an expression line, unpack target, captured variable, argument / return) x every identifier-shaped word "
             "of grammar.pest extended by a letter, underscore or digit; the program must behave as with a neutral name.  Statement forms: 21 spellings / layouts of the core statements the skeleton printer never "
@@ -306,14 +314,14 @@ class C01(Check):
 
     def layers(self, tier):
         if tier == "quick":
-            return [("L0-depth<=2-default", L0(2)), ("L0b-depth<=2-module+recursion", L0b()),
+            return [("L0-depth<=2-default", L0(2)), ("L0b-depth<=2-module+recursion", L0b()), ("L0c-depth<=2-void-functions", L0c()),
                     ("Li-identifier-spellings", [("ident", r, n) for n in ident_names() for r in IDENT_ROLES]),
                     ("Ls-statement-forms", [("form", k) for k in STATEMENT_FORMS]),
                     ("Lm-lexical-transformations-of-the-generated-corpus", self.meta_cases(tier)),
                     ("Lp-depth<=1-single-deviation-minimal-parentheses", L1(1, ("fn~min",))),
                     ("L2-spines<=4", L2(4)), ("L3q-pairs-of-compounds", L3q()),
                     ("L1-depth<=2-single-deviation(no call/store/defcall leaves)", L1(2, skip=("call", "store", "defcall", "tplain"), core_conds_beyond_depth1=True))]
-        return [("L0-depth<=3-default", L0(3)), ("L0b-depth<=2-module+recursion", L0b()),
+        return [("L0-depth<=3-default", L0(3)), ("L0b-depth<=2-module+recursion", L0b()), ("L0c-depth<=2-void-functions", L0c()),
                 ("Li-identifier-spellings", [("ident", r, n) for n in ident_names() for r in IDENT_ROLES]),
                 ("Ls-statement-forms", [("form", k) for k in STATEMENT_FORMS]),
                 ("Lm-lexical-transformations-of-the-generated-corpus", self.meta_cases(tier)),
@@ -453,7 +461,7 @@ class C01(Check):
     def finish(self, stats, tier):
         errs = []
         for t in ["store", "defcall", "tplain", "break", "continue", "return", "fault-div", "fault-assert" if tier == "thorough" else "fault-div", "elif",
-                  "while", "from", "fn~min", "ident", "form", "meta-crlf", "meta-comments", "meta-spaced", "collide@nested", "collide@top", "anon@nested", "step", "step-expr", "step-call", "bounds-expr", "through", "module", "rec"]:
+                  "while", "from", "fn~min", "ident", "form", "void", "voidlast", "meta-crlf", "meta-comments", "meta-spaced", "collide@nested", "collide@top", "anon@nested", "step", "step-expr", "step-call", "bounds-expr", "through", "module", "rec"]:
             if not stats["tags"].get(t):
                 errs.append(f"vacuity: construct {t} never explored")
         ok = stats["evaluations"] - stats["outcomes"].get("skipped-step-limit", 0)
